@@ -79,7 +79,7 @@ CONFIG = {
         "groups": [G("c20", shards={"quick": 4, "thorough": 16}, timeout={"quick": 300, "thorough": 2400})],
         "assumptions": [
             "NaN is excluded from float scalars, summaries and float arrays (the library compares with IEEE ==, which is not reflexive on NaN; the statement does not quantify over NaN)",
-            "values are built through the public constructors with non-nil payloads (nil and empty slices are distinguished by the comparison helpers on purpose)",
+            "blob and array payloads are non-nil or nil (nil only in place of an empty payload: what a nil payload encodes to); text payloads are Go strings and cannot be nil",
             "comparison with a nil interface value is outside the domain",
             "summaries count as scalars for the zero-iff-equal clause (equality and comparison both look at sum and count only)",
         ],
